@@ -35,7 +35,7 @@ def jobs(tier):
     # every batch (file-mirrors-state harness of C05, sampling phase)
     mir = [Job('harness.sampler_file:mirror',
                dict(m=[1, 1], explored=True, end_exp=[1, 1], n_batch=nb, K=1),
-               pkg_key='sampler', max_paths=8000) for nb in (1, 2)]
+               pkg_key='sampler', max_paths=8000, split=9) for nb in (1, 2)]
     # counter in every evaluation mode (harness of C03: n_like equals the
     # number of points passed to the likelihood after two batches)
     ev = [Job('harness.sampler_eval:two_batches',
